@@ -584,6 +584,36 @@ pub fn apply(f: &mut F, op: &str) -> String {
 }
 
 /// A case being recorded: the flow, and the trace text.
+/// the op in progress (start time, text) and the lines of the current case: read by the watchdog thread
+pub static PENDING: std::sync::Mutex<Option<(std::time::Instant, String)>> = std::sync::Mutex::new(None);
+pub static CASE_LINES: std::sync::Mutex<String> = std::sync::Mutex::new(String::new());
+
+/// An operation of the crate that does not return is a failure like a panic, but `catch_unwind` cannot
+/// see it: a watchdog thread ends the process when one op has been running for `HOOT_OP_TIMEOUT` seconds
+/// (default 20), after writing the case so far and `<op> => fault hang @gone` to `HOOT_HANG_FILE`.
+pub fn start_watchdog() {
+    let limit: u64 = std::env::var("HOOT_OP_TIMEOUT").ok().and_then(|v| v.parse().ok()).unwrap_or(20);
+    std::thread::spawn(move || loop {
+        std::thread::sleep(std::time::Duration::from_millis(250));
+        let hung = {
+            let p = PENDING.lock().unwrap_or_else(|e| e.into_inner());
+            match &*p {
+                Some((t, op)) if t.elapsed() > std::time::Duration::from_secs(limit) => Some(op.clone()),
+                _ => None,
+            }
+        };
+        if let Some(op) = hung {
+            let case = CASE_LINES.lock().unwrap_or_else(|e| e.into_inner()).clone();
+            let text = format!("{}{} => fault hang @gone\n", case, op);
+            if let Ok(p) = std::env::var("HOOT_HANG_FILE") {
+                let _ = std::fs::write(p, &text);
+            }
+            eprintln!("hoot-harness: operation did not return within {} s: {}", limit, &op[..op.len().min(200)]);
+            std::process::exit(3);
+        }
+    });
+}
+
 pub struct Rec {
     pub f: F,
     pub out: String,
@@ -597,15 +627,22 @@ impl Rec {
     pub fn case(&mut self, id: &str) {
         self.f = F::Gone;
         writeln!(self.out, "case {}", id).unwrap();
+        let mut c = CASE_LINES.lock().unwrap_or_else(|e| e.into_inner());
+        c.clear();
+        writeln!(c, "case {}", id).unwrap();
     }
     pub fn meta(&mut self, text: &str) {
         writeln!(self.out, "meta {}", text).unwrap();
+        writeln!(CASE_LINES.lock().unwrap_or_else(|e| e.into_inner()), "meta {}", text).unwrap();
     }
     /// run an op, record `op => result @state`, return the result text
     pub fn op(&mut self, op: &str) -> String {
+        *PENDING.lock().unwrap_or_else(|e| e.into_inner()) = Some((std::time::Instant::now(), op.to_string()));
         let res = apply(&mut self.f, op);
+        *PENDING.lock().unwrap_or_else(|e| e.into_inner()) = None;
         self.ops += 1;
         writeln!(self.out, "{} => {} @{}", op, res, self.f.name()).unwrap();
+        writeln!(CASE_LINES.lock().unwrap_or_else(|e| e.into_inner()), "{} => {} @{}", op, res, self.f.name()).unwrap();
         res
     }
     /// `new` with canonical header order as recorded op text
